@@ -38,6 +38,15 @@ def recv_field(e, st, ev):
     return terms.strip_some(ap[1])
 
 
+def recv_is_field(e, st, callterm, field):
+    try:
+        tp = models.vec_place(e, st, callterm[2][0])
+    except Exception:
+        return False
+    ap = terms.access_path(('ref', tp)) if tp is not None else None
+    return bool(ap and ap[0] == 1 and terms.strip_some(ap[1]) == field)
+
+
 def effects_of(e, s, has_loops):
     """list of (field path below self, op, args, event) for one path"""
     out = []
@@ -47,6 +56,8 @@ def effects_of(e, s, has_loops):
             if ap and ap[0] == 1:
                 out.append((terms.strip_some(ap[1]), 'assign', (ev[2],), ev))
         elif ev[0] == 'call' and models.MUTATOR_RE.search(ev[1]) and ev[2] and ev[1].split('::')[-1] not in ts.NOT_OPS:
+            if re.search(r'option::Option::<T>::(take|replace|insert)$|mem::(replace|take)$', ev[1]):
+                continue      # modelled by PX as a store of the new value (the 'assign' effect above); not a second effect
             fp = recv_field(e, s.state, ev)
             if fp is not None:
                 out.append((fp, ev[1].split('::')[-1], tuple(ev[2][1:]), ev))
@@ -245,7 +256,10 @@ def spec_effect(prog, e, segs, fn, ty, name, rep, roles, has_loops):
                 bad.extend(arg_is_validated(e, s.state, rem[0][2][0], kr, roles))
                 # result = whether something was removed
                 r = s.ret[3][0]
-                if not (r[0] == 'pred' and r[1] == 'tag' and r[3] == 'pos' and r[2][0] == 'call' and r[2][1].endswith('::remove')) and not (r[0] == 'pure' and r[1].endswith('is_some')):
+                rcall = [ev for ev in ef if ev[0] == field and ev[1] == 'remove']
+                rtags = [v for k, v in s.state.facts.items() if k[0] == 'tag' and k[1][0] == 'call' and k[1][1].endswith('::remove') and k[1][2] and recv_is_field(e, s.state, k[1], field)]
+                const_ok = (r == ('int', 1) and rtags == ['pos']) or (r == ('int', 0) and rtags == ['neg'])      # match map.remove(k) { Some(_) => true, None => false }
+                if not const_ok and not (r[0] == 'pred' and r[1] == 'tag' and r[3] == 'pos' and r[2][0] == 'call' and r[2][1].endswith('::remove')) and not (r[0] == 'pure' and r[1].endswith('is_some')):
                     bad.append('result is not "an entry was removed": %s' % e.short(r, 120))
     elif ty == 'LanguageIdentifier' and name in ('set_variants', 'clear_variants'):
         vf = field_index(facts, ty, lambda f: 'Variant' in f['ty'])
@@ -280,6 +294,10 @@ def spec_effect(prog, e, segs, fn, ty, name, rep, roles, has_loops):
                     else:
                         break
                 ap = terms.access_path(base[2][0]) if base[0] == 'pure' and base[2] else None
+                if not (ap and ap[0] == 2):
+                    # a summarised helper (loops inside): the parameter its elements are copied from, mapped to the call's argument
+                    src = ts.content_source(e, v)
+                    ap = terms.access_path(src) if src is not None else None
                 if not (ap and ap[0] == 2):
                     bad.append('stored variants are not a copy of the argument: %s' % e.short(v, 160))
     elif ty == 'TransformExtensionList' and name in ('set_tlang', 'clear_tlang'):
@@ -422,7 +440,8 @@ def raw_ctor_callers(prog, rep, allinv):
                     if ap is not None and not terms.find_terms(v, lambda t: t[0] in ('pure', 'mut', 'call')):
                         continue       # an existing variants field / parameter of that type moved through
                     r = ts.of_value(e, s.state, v, s.state.facts)
-                    if ts.worse(r.state, ts.SD) or r.maybe_empty:
+                    sm = ts.call_summary(e, v)
+                    if ts.worse(r.state, ts.SD) or (sm.some_empty if sm is not None else r.maybe_empty):
                         bad.append('passes variants that are %s%s: %s' % (ts.NAMES[r.state], ' and possibly empty' if r.maybe_empty else '', e.short(v, 140)))
         rep.ob('rawctor:%s' % validators.fn_key(f), 'TS-RAWCTOR', f, b['span'], '%s hands canonical variants (None, or sorted, duplicate-free, non-empty) to the unchecked constructor' % validators.short_fn(f),
                not bad, detail='\n'.join(sorted(set(bad))[:3]))
@@ -506,6 +525,10 @@ def run(tier, replay=None):
     mutator_obligations(rep)
     # assigning parsed subtags to the public fields: the subtag validators normalise exactly as the parser does (shared with C15)
     validators.run_all(common.program('K0'), rep, roles_wanted={'Language', 'Script', 'Region', 'Variant'})
+    # "to_string and a re-parse agree with the model": every state the mutators can build (an empty value list under a key, any order of insertion)
+    # is printed by the Display grammars and re-read by the parser tables into the slots it was printed from (shared with C05)
+    from . import c05
+    c05.roundtrip_obligations(common.program('K0'), rep)
     rep.explanation = ('Structural necessary conditions of the model equivalence, decided on every path of every mutator, constructor and validating getter: '
                        'typestate (sorted / duplicate-free / single empty representation) of the invariant fields at every exit, no write to self before an Err return, '
                        'every inserted key/value/attribute/tag is the argument validated against the exact production and normalised as the parser does (shape domain), '
